@@ -40,6 +40,13 @@ def run(ctx):
     F.check_no_effects(ctx, "E7.deterministic", P, ["SecretKey<C>::proof_of_possession", "ProofOfPossession<C>::verify", "SecretKey<C>::public_key"])
     for fk in ("helpers::pairing_g1_g2", "helpers::pairing_g2_g1"):
         check_pipeline(ctx, P, fk)
+    # "for every non-zero secret key": proving and verifying return for every key (no abort-capable site on the way
+    # that is not discharged) - with and without debug assertions
+    from . import aborts as A
+
+    roots = ["SecretKey<C>::proof_of_possession", "ProofOfPossession<C>::verify", "BlsSignaturePop::pop_prove", "BlsSignaturePop::pop_verify"]
+    A.check_aborts(ctx, "E8", P, roots, scope="C09")
+    A.check_aborts(ctx, "E8", ctx.prog("blst", "nodebug"), roots, scope="C09", profile="nodebug")
     # "any change to the proof makes it fail": a proof (and the key it is checked against) enters only through the
     # subgroup-checking point decoders - an unchecked decoder would let a proof shifted by a small-order point parse
     from . import posctl as PC
